@@ -506,6 +506,42 @@ def case_aead_decrypt(m, layout, alg, fam, adlen, mlen):
     return None
 
 
+def case_aead_decrypt_session(m, layout, alg, adlen, mlen):
+    """a receiver that keeps one incremental state for a session: init once,
+    then start / decrypt_block.. / decrypt_finalize per packet.  Packet i is the
+    specification's encryption under nonce + i; each must be accepted and give
+    its plaintext, whatever the lengths of the packets before it."""
+    prefix, klen = {"128": ("ascon128", 16), "128a": ("ascon128a", 16), "80pq": ("ascon80pq", 20)}[alg]
+    for nonce in (bytes(range(16)), bytes(14) + b"\xff\xff"):
+        R = modes.Run(m, layout)
+        K = R.buf("K", klen)
+        N = R.buf("Nc", 16, symbolic=False, data=nonce)
+        st = R.obj(R.struct_size(prefix + "_state_t"))
+        R.call(prefix + "_aead_init", st, N, K)
+        nv = int.from_bytes(nonce, "big")
+        packets = [(adlen, mlen), (3, 5), (0, 0), (9, 21)]
+        for k, (al, ml) in enumerate(packets):
+            A = R.buf("A%d" % k, al)
+            nk = ((nv + k) % (1 << 128)).to_bytes(16, "big")
+            wc, wt = R.spec.aead_encrypt(alg, SB("K", klen), cbytes(nk), SB("A%d" % k, al), SB("M%d" % k, ml))
+            cin = R.out(ml + 16)
+            R.mc.store(cin, tuple(wc) + tuple(wt))
+            mo = R.out(ml)
+            R.call(prefix + "_aead_start", st, A, al)
+            pos = 0
+            for c in ([ml] if ml < 2 else [1, ml - 1]):
+                R.call(prefix + "_aead_decrypt_block", st, Ptr(cin.obj, pos), Ptr(mo.obj, pos), c)
+                pos += c
+            r = to_int(R.call(prefix + "_aead_decrypt_finalize", st, Ptr(cin.obj, ml)))
+            what = "packet %d of a session (packet lengths %s, initial nonce %s)" % (k + 1, [p[1] for p in packets], nonce.hex())
+            if r != 0:
+                return ("session", "%s: the genuine ciphertext under nonce+%d is rejected (returned %s)" % (what, k, r))
+            d = modes.first_diff(R.read(mo, ml), SB("M%d" % k, ml))
+            if d:
+                return ("session", "%s: plaintext differs at %s" % (what, d))
+    return None
+
+
 def case_aead_inplace(m, layout, alg, adlen, mlen):
     """incremental encrypt / decrypt with identical input and output buffers,
     split into chunks, equals the one-shot specification result"""
